@@ -161,6 +161,19 @@ let handle kind a =
              | Ok r' -> short_or_digest (canon r')
              | Err e -> "Err:" ^ errs e in
            Some (bytes_obs block ^ "|" ^ d))
+  | "rwz" ->
+      let body = bytes_of_hex a.(1) in
+      (match validate body with
+       | Err _ -> Some "nv"
+       | Ok _ ->
+           (match lazy_rewrite (n_of_dec a.(0)) body with
+            | None -> Some "P"
+            | Some (Err e) -> Some ("Err:" ^ errs e)
+            | Some (Ok b) -> Some (bytes_obs b)))
+  | "hb" ->
+      (match decode (bytes_of_hex a.(0)) with
+       | Ok r -> Some (short_or_digest (canon r))
+       | Err e -> Some ("Err:" ^ errs e))
   | "dec" ->
       (match decode_record (bytes_of_hex a.(0)) with
        | Ok r -> Some (short_or_digest (canon r))
@@ -170,12 +183,12 @@ let handle kind a =
        | None -> Some "short"
        | Some v ->
            let p f = function None -> "P" | Some x -> f x in
-           let id = function Ok None -> "-" | Ok (Some n) -> dec_of_n n | Err _ -> "Err" in
+           let id = function Ok None -> "-" | Ok (Some n) -> dec_of_n n | Err e -> "Err:" ^ errs e in
            Some (short_or_digest (String.concat " " [
              p (function None -> "-" | Some n -> hex_of_bytes n) v.v_name;
              dec_of_n v.v_flags; id v.v_rid; id v.v_pos; opt_s v.v_mapq; id v.v_mrid; id v.v_mpos;
              dec_of_z v.v_tlen;
-             p (function Ok c -> fmt_cigar c | Err _ -> "Err") v.v_cigar;
+             p (function Ok c -> fmt_cigar c | Err e -> "Err:" ^ errs e) v.v_cigar;
              p hex_of_bytes v.v_seq; p hex_of_bytes v.v_qual; p hex_of_bytes v.v_data_raw;
              (* Sequence::len / get at the probe indices, QualityScores::iter *)
              (let body = bytes_of_hex a.(0) in
@@ -190,32 +203,43 @@ let handle kind a =
              p hex_of_bytes v.v_qual;
              (* Data::iter (fields before the first error) and Data::get of every tag seen, CG, ZZ *)
              (let body = bytes_of_hex a.(0) in
-              match lzp_data body with
+              match lzp_data_k body with
               | None -> "P"
               | Some (fs, e) ->
                   let tags = List.map fst fs @ [(n_of_int 67, n_of_int 71); (n_of_int 90, n_of_int 90)] in
-                  fmt_data fs ^ (if e then "!Err" else "") ^ " " ^
+                  fmt_data fs ^ (match e with Some k -> "!Err:" ^ errs k | None -> "") ^ " " ^
                   String.concat "," (List.map (fun t ->
-                    match data_get (fs, e) t with
-                    | None -> "-" | Some (Err _) -> "Err" | Some (Ok x) -> fmt_val x) tags));
+                    match data_get_k (fs, e) t with
+                    | None -> "-" | Some (Err k) -> "Err:" ^ errs k | Some (Ok x) -> fmt_val x) tags));
              (* Cigar::len / is_empty *)
              (match lzp_cigar_len (bytes_of_hex a.(0)) with
               | None -> "P"
               | Some (n, e) -> dec_of_n n ^ ":" ^ (if e then "1" else "0"));
              (* RecordBuf::try_from_alignment_record *)
-             (match lazy_convert (bytes_of_hex a.(0)) with
+             (match lazy_convert_k (bytes_of_hex a.(0)) with
               | None -> "P"
-              | Some (Err _) -> "Err"
+              | Some (Err k) -> "Err:" ^ errs k
               | Some (Ok r) -> short_or_digest (canon r)) ])))
   | "sub" ->
       let sq = bytes_of_hex a.(0) in
       let n = List.length sq in
       let packed = pack_bases sq in
-      let mids = if n <= 12 then List.init (n + 1) (fun i -> i)
-        else List.filter (fun m -> m <= n) [0; 1; 2; 3; n / 2; n / 2 + 1; n - 3; n - 2; n - 1; n] in
+      let mids = (if n <= 12 then List.init (n + 1) (fun i -> i)
+        else List.filter (fun m -> m <= n) [0; 1; 2; 3; n / 2; n / 2 + 1; n - 3; n - 2; n - 1; n]) @ [n + 1; n + 2] in
+      let shape x m =
+        let probes = List.filter (fun i -> i >= 0) [0; 1; m - 1; m; m + 1] in
+        let gets = List.map (fun i -> match subseq_get packed x (n_of_int i) with
+          | None -> "P" | Some None -> "-" | Some (Some b) -> dec_of_n b) probes in
+        Printf.sprintf "%s:%s:%s"
+          (match subseq_len x with None -> "P" | Some l -> dec_of_n l)
+          (match subseq_is_empty x with None -> "P" | Some true -> "1" | Some false -> "0")
+          (String.concat "." gets) in
       let parts = List.map (fun mid ->
-        hex_of_bytes (sub_iter packed N0 (n_of_int mid)) ^ "/" ^
-        hex_of_bytes (sub_iter packed (n_of_int mid) (n_of_int n))) mids in
+        match split_at_checked (n_of_int n) (n_of_int mid) with
+        | None -> "None"
+        | Some (l, r) ->
+            hex_of_bytes (subseq_iter packed l) ^ "/" ^ hex_of_bytes (subseq_iter packed r) ^ "/" ^
+            shape l mid ^ "/" ^ shape r (n - mid)) mids in
       Some (short_or_digest (String.concat "," parts))
   | "tab" ->
       (match a.(0) with
